@@ -3,3 +3,5 @@ module verifref
 go 1.18
 
 require golang.org/x/crypto v0.0.0-20220321153916-2c7772ba3064
+
+require golang.org/x/sys v0.0.0-20220325203850-36772127a21f // indirect
